@@ -55,7 +55,11 @@ initadd(struct initparser *p, struct init *new)
 			while (old && old->end * 8 - old->bits.after <= new->end * 8 - new->bits.after);
 			break;
 		}
-		/* `old` covers `new`, keep looking */
+		/* `old` covers `new`; a scalar is replaced (other union member), otherwise keep looking */
+		if (old->expr->type->prop & PROPSCALAR) {
+			old = old->next;
+			break;
+		}
 	}
 	new->next = old;
 	*init = new;
